@@ -64,9 +64,9 @@ type faultReader struct {
 	cancel   context.CancelFunc
 	read     int
 	errv     error
-	failed   bool // mode 2: the one-off failure has been delivered
-	returned bool // the call under test has returned
-	late     int  // bytes delivered after that
+	failed   bool          // mode 2: the one-off failure has been delivered
+	returned bool          // the call under test has returned
+	late     int           // bytes delivered after that
 	blockAt  int           // >=0: after blockAt bytes the next Read blocks until release is closed (a pipe whose writer is idle)
 	release  chan struct{} // closed by the harness once the call under test has returned
 	blocked  atomic.Bool   // a Read is (or was) parked
